@@ -10,6 +10,7 @@ import (
 	"fmt"
 	"sort"
 	"strings"
+	"time"
 
 	ipfslog "berty.tech/go-ipfs-log"
 	"berty.tech/go-ipfs-log/accesscontroller"
@@ -148,6 +149,7 @@ type World struct {
 	ShareOpts    bool
 	curProgress  chan iface.IPFSLogEntry // progress channel of the load being driven (nil: none)
 	sharedOpts   *ipfslog.LogOptions
+	sharedFetch  *entry.FetchOptions
 	Nodes        []*Node
 	Net          []*Msg
 	msgSeq       int
@@ -212,6 +214,20 @@ func (w *World) loadOpts() *ipfslog.LogOptions {
 	}
 	w.R.Probe("options-value-reused-across-loads")
 	return w.sharedOpts
+}
+
+// fetchOpts: the fetch options value for NewFromJSON / NewFromEntry. In the worlds that reuse one options
+// value the application also keeps one fetch-options value and only sets the fields it means to set.
+func (w *World) fetchOpts(conc int, length *int, timeout time.Duration) *entry.FetchOptions {
+	if !w.ShareOpts {
+		return &entry.FetchOptions{Concurrency: conc, Length: length, Timeout: timeout, ProgressChan: w.curProgress}
+	}
+	if w.sharedFetch == nil {
+		w.sharedFetch = &entry.FetchOptions{}
+	}
+	f := w.sharedFetch
+	f.Concurrency, f.Length, f.Timeout, f.ProgressChan = conc, length, timeout, w.curProgress
+	return f
 }
 
 // nodeLoadOpts: the same for a replica's own reloads (its options carry its access controller).
@@ -392,16 +408,36 @@ func (w *World) pointerCount() int {
 	}
 }
 
+// The ordered maps the library hands out are checked wherever the harness reads them: a key listed twice,
+// or a key without an entry, is a corrupt index - a fault of the library, reported as such instead of
+// being tripped over.
 func hashSet(om iface.IPFSLogOrderedEntries) map[string]bool {
 	s := map[string]bool{}
 	for _, k := range om.Keys() {
+		if s[k] {
+			panic(&Violation{Oracle: "index:corrupt", Msg: "an entry index lists the key " + k + " twice"})
+		}
+		if e, ok := om.Get(k); !ok || e == nil {
+			panic(&Violation{Oracle: "index:corrupt", Msg: "an entry index lists the key " + k + " but holds no entry for it"})
+		}
 		s[k] = true
 	}
 	return s
 }
 
-func hashSeq(om iface.IPFSLogOrderedEntries) []string {
+// liveSlice is om.Slice() with the same check.
+func liveSlice(om iface.IPFSLogOrderedEntries) []iface.IPFSLogEntry {
 	sl := om.Slice()
+	for i, e := range sl {
+		if e == nil {
+			panic(&Violation{Oracle: "index:corrupt", Msg: fmt.Sprintf("position %d of %d of an entry index holds no entry", i, len(sl))})
+		}
+	}
+	return sl
+}
+
+func hashSeq(om iface.IPFSLogOrderedEntries) []string {
+	sl := liveSlice(om)
 	out := make([]string, len(sl))
 	for i, e := range sl {
 		out[i] = e.GetHash().String()
@@ -626,9 +662,9 @@ func (w *World) materialise(m *Msg, rcv *Writer) (*ipfslog.IPFSLog, error) {
 		case 2:
 			l, err = ipfslog.NewFromMultihash(ctx, w.St, rcv.ID, m.c, w.loadOpts(), &ipfslog.FetchOptions{Concurrency: conc, ProgressChan: w.curProgress})
 		case 3:
-			l, err = ipfslog.NewFromJSON(ctx, w.St, rcv.ID, m.json, w.loadOpts(), &entry.FetchOptions{Concurrency: conc, ProgressChan: w.curProgress})
+			l, err = ipfslog.NewFromJSON(ctx, w.St, rcv.ID, m.json, w.loadOpts(), w.fetchOpts(conc, nil, 0))
 		case 4:
-			l, err = ipfslog.NewFromEntry(ctx, w.St, rcv.ID, append([]iface.IPFSLogEntry(nil), m.heads...), w.loadOpts(), &entry.FetchOptions{Concurrency: conc, ProgressChan: w.curProgress})
+			l, err = ipfslog.NewFromEntry(ctx, w.St, rcv.ID, append([]iface.IPFSLogEntry(nil), m.heads...), w.loadOpts(), w.fetchOpts(conc, nil, 0))
 		case 5:
 			l, err = ipfslog.NewFromEntryHash(ctx, w.St, rcv.ID, m.c, w.loadOpts(), &ipfslog.FetchOptions{Concurrency: conc, ProgressChan: w.curProgress})
 		}
@@ -765,9 +801,9 @@ func (w *World) restart(n *Node) {
 		if n.Durable.kind == 0 {
 			switch {
 			case how == 1 && n.Durable.json != nil && w.Codec != "pb":
-				l, err = ipfslog.NewFromJSON(ctx, w.St, n.W.ID, n.Durable.json, w.nodeLoadOpts(n), &entry.FetchOptions{Concurrency: conc, ProgressChan: w.curProgress})
+				l, err = ipfslog.NewFromJSON(ctx, w.St, n.W.ID, n.Durable.json, w.nodeLoadOpts(n), w.fetchOpts(conc, nil, 0))
 			case how == 2 && len(n.Durable.heads) > 0 && w.Codec != "pb":
-				l, err = ipfslog.NewFromEntry(ctx, w.St, n.W.ID, append([]iface.IPFSLogEntry(nil), n.Durable.heads...), w.nodeLoadOpts(n), &entry.FetchOptions{Concurrency: conc, ProgressChan: w.curProgress})
+				l, err = ipfslog.NewFromEntry(ctx, w.St, n.W.ID, append([]iface.IPFSLogEntry(nil), n.Durable.heads...), w.nodeLoadOpts(n), w.fetchOpts(conc, nil, 0))
 			default:
 				l, err = ipfslog.NewFromMultihash(ctx, w.St, n.W.ID, n.Durable.c, w.nodeLoadOpts(n), &ipfslog.FetchOptions{Concurrency: conc, ProgressChan: w.curProgress})
 			}
@@ -847,7 +883,10 @@ func (w *World) doClockJump() {
 	o := w.nodeOpts(n)
 	o.Entries = n.Log.GetEntries()
 	o.Heads = n.Log.Heads().Slice()
-	o.Clock = entry.NewLamportClock(n.W.ID.PublicKey, cur+delta)
+	// the start clock an application passes may carry any id (its own, a remote entry's, none): only its
+	// time is a start value, the log's clock id is the writer's key
+	clockID := [][]byte{n.W.ID.PublicKey, n.W.ID.PublicKey, Writers()[(n.Idx+1)%len(Writers())].ID.PublicKey, nil}[w.R.Choose("clock-id", 4)]
+	o.Clock = entry.NewLamportClock(clockID, cur+delta)
 	n.Log = w.newLog(n.W, o)
 	n.Gen++
 	n.ClockAhead = true
